@@ -81,7 +81,8 @@ OPERATORS = {
     '<>': operator.ne,
 }
 
-OPERATORS_RE = re.compile('^(?P<oper>(=|<>|<=?|>=?))?(?P<value>.*)$')
+OPERATORS_RE = re.compile(
+    '^(?P<oper>(=|<>|<=?|>=?))?(?P<value>.*)$', re.DOTALL)
 
 PYTHON_AST_OPERATORS = {
     'Eq': operator.eq,
